@@ -35,6 +35,28 @@ def modEnergy2 (m k dt : α) (s : α × α) : α := m * (s.2 * s.2) + k * (s.1 *
 
 end
 
+/-! ## n-dof generalisation: constant mass matrix, linear joint springs
+
+For a tree of slide joints (any axes, any topology) the joint-space mass matrix `M` is constant, the
+bias force vanishes without gravity, and with joint stiffness `K = diag k` one step of the pipeline is
+```
+qf_smooth = −K q ;  v' = v + dt · M⁻¹ qf_smooth ;  q' = q + dt · v'
+```
+i.e. `linStep A` with `A q = M⁻¹ (K q)`, polymorphic in the vector type (lists of floats in the driver,
+any module over a field in the theorems). -/
+section Lin
+variable {α V : Type} [Add V] [Neg V] [SMul α V]
+
+def linStep (A : V → V) (dt : α) (s : V × V) : V × V :=
+  let v' := s.2 + dt • (-(A s.1))
+  (s.1 + dt • v', v')
+
+def linIter (A : V → V) (dt : α) : Nat → V × V → V × V
+  | 0, s => s
+  | n + 1, s => linIter A dt n (linStep A dt s)
+
+end Lin
+
 open Brax in
 /-- driver: `osc <m> <k> <d> <dt> <q> <v> <n>` → the n+1 states, Float -/
 def driverStep (line : String) : String :=
